@@ -58,6 +58,19 @@ inductive BinNameRule where
   | other
   deriving Repr, DecidableEq
 
+/-- `WsgiApplication.is_wsdl_request`, the URL-path side: which paths ask for the interface document -/
+inductive WsdlPathRule where
+  | dotWsdlSuffix   -- PATH_INFO ends with '.wsdl'                                     (good)
+  | wsdlSuffix      -- PATH_INFO ends with 'wsdl': methods named '...wsdl' are shadowed
+  | other
+  deriving Repr, DecidableEq
+
+/-- … the query-string side -/
+inductive WsdlQueryRule where
+  | firstName       -- the text before the first '=' of QUERY_STRING, lower-cased, is 'wsdl'   (good)
+  | other
+  deriving Repr, DecidableEq
+
 structure Facts11 where
   /-- `spyne.const.REQUEST_SUFFIX` -/
   requestSuffix : Text
@@ -72,6 +85,10 @@ structure Facts11 where
   emptyIsNotFound : Bool
   patternDup : PatternDupRule
   binNames : BinNameRule
+  wsdlPath : WsdlPathRule
+  wsdlQuery : WsdlQueryRule
+  /-- only a request whose verb upper-cases to 'GET' can be a WSDL request -/
+  wsdlGetOnly : Bool
 
 /-! ## Declarations as written by the user, and what the decorator makes of them -/
 
@@ -318,6 +335,8 @@ inductive Resp where
   | stuck
   /-- the name could not even be read (undecodable bytes): some other Client.* fault, no user code ran -/
   | clientFault
+  /-- the transport took the request for a request for the interface document (WSDL): no dispatch, no user code -/
+  | wsdl
   deriving Repr, DecidableEq
 
 /-- `generate_method_contexts` + the transport running every context once -/
